@@ -530,6 +530,14 @@ pub mod util {
         pub fn new(a: u8, b: u8, c: u8, d: u8, e: u8, f: u8) -> (r: MacAddr) ensures r == MacAddr(a, b, c, d, e, f) { MacAddr(a, b, c, d, e, f) }
         pub fn broadcast() -> (r: MacAddr) ensures r == MacAddr(0xff, 0xff, 0xff, 0xff, 0xff, 0xff) { MacAddr(0xff, 0xff, 0xff, 0xff, 0xff, 0xff) }
         pub fn zero() -> (r: MacAddr) ensures r == MacAddr(0, 0, 0, 0, 0, 0) { MacAddr(0, 0, 0, 0, 0, 0) }
+        // predicates of pnet_base 0.33 MacAddr (not used by the unchanged tree; modelled so that an edit using them is decided)
+        pub fn is_zero(&self) -> (r: bool) ensures r == (*self == MacAddr(0, 0, 0, 0, 0, 0)) { self.0 == 0 && self.1 == 0 && self.2 == 0 && self.3 == 0 && self.4 == 0 && self.5 == 0 }
+        pub fn is_broadcast(&self) -> (r: bool) ensures r == (*self == MacAddr(0xff, 0xff, 0xff, 0xff, 0xff, 0xff)) { self.0 == 0xff && self.1 == 0xff && self.2 == 0xff && self.3 == 0xff && self.4 == 0xff && self.5 == 0xff }
+        pub fn is_multicast(&self) -> (r: bool) ensures r == (self.0 & 1 == 1) { self.0 & 1 == 1 }
+        pub fn is_unicast(&self) -> (r: bool) ensures r == !(self.0 & 1 == 1) { !(self.0 & 1 == 1) }
+        pub fn is_local(&self) -> (r: bool) ensures r == (self.0 & 2 == 2) { self.0 & 2 == 2 }
+        pub fn is_universal(&self) -> (r: bool) ensures r == !(self.0 & 2 == 2) { !(self.0 & 2 == 2) }
+        pub fn octets(&self) -> (r: [u8; 6]) ensures r@ == seq![self.0, self.1, self.2, self.3, self.4, self.5] { [self.0, self.1, self.2, self.3, self.4, self.5] }
     }
     impl vstd::std_specs::convert::FromSpecImpl<[u8; 6]> for MacAddr {
         open spec fn obeys_from_spec() -> bool { true }
